@@ -886,8 +886,13 @@ class Part(object):
         i = np.searchsorted(times, t)
         changed = False
 
-        if i == 0 or quarters[i - 1] != quarter:
-            # add or replace
+        if (
+            i == 0
+            or quarters[i - 1] != quarter
+            or (i < len(times) and times[i] == t)
+        ):
+            # add or replace (an entry stored at t is replaced even when the
+            # new value equals the one in force before t)
             if i == len(times) or times[i] != t:
                 # add
                 times.insert(i, t)
